@@ -14,9 +14,9 @@ import (
 	"sort"
 	"strings"
 
+	"golang.org/x/tools/go/packages"
 	"verif/third_party/xtools/go/callgraph/cha"
 	"verif/third_party/xtools/go/callgraph/vta"
-	"golang.org/x/tools/go/packages"
 	"verif/third_party/xtools/go/ssa"
 	"verif/third_party/xtools/go/ssa/ssautil"
 )
@@ -38,8 +38,9 @@ type Prog struct {
 	vtaEdges map[ssa.CallInstruction][]*ssa.Function
 
 	// Flattened lists the inlining steps applied (caller <- callee).
-	Flattened []string
-	anchors   map[string]bool
+	Flattened   []string
+	anchors     map[string]bool
+	deadHelpers map[*ssa.Function]bool
 }
 
 // Load type-checks dir (patterns default to ./...) without test files and
@@ -134,7 +135,7 @@ func (p *Prog) collectSrcFuncs() {
 	seen := map[*ssa.Function]bool{}
 	var add func(f *ssa.Function)
 	add = func(f *ssa.Function) {
-		if f == nil || seen[f] || f.Blocks == nil {
+		if f == nil || seen[f] || f.Blocks == nil || p.deadHelpers[f] {
 			return
 		}
 		seen[f] = true
